@@ -30,6 +30,13 @@ pub fn run_scalars(args: &Args, mut out: Out) {
         n_in_block += 1;
         let s = catch(|| format!("{}", TagValue::from(c.to_string()))).unwrap_or_else(|()| "<panic>".into());
         out.ev(sid, "Scalar", json!({"cp":cp,"out":cps(&s)}));
+        // the same scalar as the value of the `&'static str` variant, which no conversion produces
+        if cp < 0x3000 || boundary(cp) || cp % 97 == 0 {
+            let st: &'static str = Box::leak(c.to_string().into_boxed_str());
+            let s2 = catch(|| format!("{}", TagValue::Str(st))).unwrap_or_else(|()| "<panic>".into());
+            n_in_block += 1;
+            out.ev(sid, "Scalar", json!({"cp":cp,"out":cps(&s2),"variant":"Str"}));
+        }
     }
     out.finish();
 }
@@ -56,7 +63,16 @@ pub fn run_lines(args: &Args, mut out: Out) {
                         .map(|_| if r.gen_bool(0.7) { *classes.choose(&mut r).unwrap() } else { char::from_u32(r.gen_range(0..0x11_0000)).unwrap_or('x') })
                         .collect();
                     desc.push(json!({"name":cps(name),"kind":"str","val":cps(&s),"finite":true}));
-                    tags.push(tag(name, s));
+                    // every way a string can become a tag value: the conversions and the `&'static str` variant itself
+                    let v: TagValue = match r.gen_range(0..7) {
+                        0 => TagValue::from(s),
+                        1 => TagValue::from(s.as_str()),
+                        2 => TagValue::from(&s),
+                        3 => TagValue::from(std::borrow::Cow::Borrowed(s.as_str())),
+                        4 => TagValue::from(std::path::Path::new(&s)),
+                        _ => TagValue::Str(Box::leak(s.into_boxed_str())),
+                    };
+                    tags.push(Tag::new(name, v));
                 }
                 2 => {
                     let (t, text): (Tag, String) = match r.gen_range(0..14) {
